@@ -245,6 +245,18 @@ impl<T: Conv> Conv for std::collections::LinkedList<T> {
     }
 }
 
+impl<K: Conv + Eq + std::hash::Hash, V: Conv> Conv for std::collections::HashMap<K, V> {
+    fn from_val(v: &Val) -> Self {
+        match v {
+            Val::Map(ps) => ps.iter().map(|(k, w)| (K::from_val(k), V::from_val(w))).collect(),
+            _ => panic!("map"),
+        }
+    }
+    fn to_val(&self) -> Val {
+        Val::Map(self.iter().map(|(k, w)| (k.to_val(), w.to_val())).collect())
+    }
+}
+
 impl<T: Conv + Eq + std::hash::Hash> Conv for HashSet<T> {
     fn from_val(v: &Val) -> Self {
         v.as_seq().iter().map(T::from_val).collect()
